@@ -752,6 +752,19 @@ static void krylov_case(vf::Draw& d, vf::Case& c, int fam)
     d.scale10("scale_exp", mse);
     P.scale_exp = d.scale10_exp_last();
     P.scale = std::pow((ld) 10, (ld) P.scale_exp);
+    // Extreme scales (plain symmetric / Hermitian families, regime R1 only, where the selected set is decidable whatever the convergence
+    // test does): eigenvalues whose SQUARES leave the floating-point range (|lambda| ~ 1e+-150..250 in double and long double, 1e20..1e30 in
+    // float) while the matrix itself is perfectly representable. A selection key that is monotone in |lambda| only while lambda^2 is
+    // representable (|lambda|^2, lambda*lambda, ...) silently turns into a tie there.
+    if ((fam == F_SYM || fam == F_HERM) && P.r1 && !P.singular && d.one_in("extreme_scale", 6))
+    {
+        const bool is_float = std::is_same<Real, float>::value;
+        const bool huge = is_float ? true : d.flag("extreme_huge");
+        const long e = is_float ? d.range("extreme_exp", 20, 30) : d.range("extreme_exp", 150, 250);
+        P.scale_exp = huge ? e : -e;
+        P.scale = std::pow((ld) 10, (ld) P.scale_exp);
+        c.cls(huge ? "extreme_scale/huge" : "extreme_scale/tiny");
+    }
     ld sigma_unit = 0;
     ld sigma_im_unit = 0;
     if (tm != T_NONE)
